@@ -794,27 +794,34 @@ class WorkflowConductor(object):
         # Get task context for evaluating the expression in delay and count.
         in_ctx = self.get_task_context(in_ctx_idxs)
 
-        # Evaluate the retry delay value.
-        if "delay" in task_state_entry["retry"] and isinstance(
-            task_state_entry["retry"]["delay"], str
-        ):
-            delay_value = expr_base.evaluate(task_state_entry["retry"]["delay"], in_ctx)
+        # If there is a failure while evaluating expression(s), log the error, fail the
+        # workflow, and disable the retry for the task.
+        try:
+            # Evaluate the retry delay value.
+            if "delay" in task_state_entry["retry"] and isinstance(
+                task_state_entry["retry"]["delay"], str
+            ):
+                delay_value = expr_base.evaluate(task_state_entry["retry"]["delay"], in_ctx)
 
-            if not isinstance(delay_value, int):
-                raise ValueError('The retry delay for task "%s" is not an integer.' % task_id)
+                if not isinstance(delay_value, int):
+                    raise ValueError('The retry delay for task "%s" is not an integer.' % task_id)
 
-            task_state_entry["retry"]["delay"] = delay_value
+                task_state_entry["retry"]["delay"] = delay_value
 
-        # Evaluate the retry count value.
-        if "count" in task_state_entry["retry"] and isinstance(
-            task_state_entry["retry"]["count"], str
-        ):
-            count_value = expr_base.evaluate(task_state_entry["retry"]["count"], in_ctx)
+            # Evaluate the retry count value.
+            if "count" in task_state_entry["retry"] and isinstance(
+                task_state_entry["retry"]["count"], str
+            ):
+                count_value = expr_base.evaluate(task_state_entry["retry"]["count"], in_ctx)
 
-            if not isinstance(count_value, int):
-                raise ValueError('The retry count for task "%s" is not an integer.' % task_id)
+                if not isinstance(count_value, int):
+                    raise ValueError('The retry count for task "%s" is not an integer.' % task_id)
 
-            task_state_entry["retry"]["count"] = count_value
+                task_state_entry["retry"]["count"] = count_value
+        except Exception as e:
+            self.log_error(e, task_id=task_id, route=task_state_entry["route"])
+            self.request_workflow_status(statuses.FAILED)
+            task_state_entry["retry"]["count"] = 0
 
     def add_task_state(self, task_id, route, in_ctx_idxs=None, prev=None):
         if not self.graph.has_task(task_id):
@@ -1155,8 +1162,14 @@ class WorkflowConductor(object):
         if task_status in statuses.ABENDED_STATUSES and task_state_entry["retry"]["when"] is None:
             return True
 
-        if expr_base.evaluate(task_state_entry["retry"]["when"], current_ctx):
-            return True
+        # If there is a failure while evaluating the condition, log the error, fail the
+        # workflow, and do not retry the task.
+        try:
+            if expr_base.evaluate(task_state_entry["retry"]["when"], current_ctx):
+                return True
+        except Exception as e:
+            self.log_error(e, task_id=task_state_entry["id"], route=task_state_entry["route"])
+            self.request_workflow_status(statuses.FAILED)
 
         return False
 
